@@ -43,6 +43,7 @@ EXTRA = [
     ("folder_scan", "dbd"), ("folder_restore", "dbd"), ("folder_delete", "d"), ("fs_restore_folder", "d"),
     ("peer_disconnect", None), ("app_install", "bot"), ("app_remove", "bot"), ("sw_scan", "bot"), ("sw_compromise", "bot"),
     ("sw_fix", "bot"), ("svc_pause", "web"), ("svc_resume", "web"), ("file_delete", "dbf"), ("fs_restore_file", "dbf"),
+    ("svc_restart", "db"), ("svc_restart", "web"), ("svc_disable", "web"), ("svc_enable", "web"),
 ]
 FULL = CORE + EXTRA
 TIMING = [("folder_scan", "d"), ("folder_restore", "d"), ("os_scan", None), ("sw_fix", "db"), ("sw_compromise", "db"),
@@ -64,6 +65,9 @@ SCRIPTED = {
     "db-file-deleted-folder-restore": [("sql_delete", None), ("file_scan", "dbf"), ("file_delete", "dbf"), ("folder_restore", "dbd"), T, T, T, T,
                                        ("file_scan", "dbf"), ("folder_scan", "dbd"), T, T, T, T],
     "pause-during-fixing": [("sw_compromise", "db"), ("sw_fix", "db"), ("svc_pause", "db"), T, T, ("svc_resume", "db"), T, ("sw_scan", "db")],
+    "restart-during-fixing": [("sw_compromise", "db"), ("sw_fix", "db"), ("svc_restart", "db"), T, T, T, T, ("sw_scan", "db"), T, T, T, T, T, ("sw_scan", "db")],
+    "restart-then-fix": [("sw_compromise", "web"), ("svc_restart", "web"), T, ("sw_fix", "web"), T, T, T, T, ("sw_scan", "web"), T, T, T, ("sw_scan", "web")],
+    "disable-during-fixing": [("sw_compromise", "web"), ("sw_fix", "web"), ("svc_disable", "web"), T, T, T, T, ("svc_enable", "web"), ("svc_start", "web"), T, ("sw_scan", "web")],
     "stop-start-compromised": [("sw_compromise", "db"), ("svc_stop", "db"), ("svc_start", "db"), ("sw_scan", "db"), ("shutdown", None), T, T, T,
                                ("startup", None), T, T, T, ("sw_scan", "db"), ("os_scan", None), T, T, T, T],
     "install-compromise-fix-remove": [("app_install", "bot"), ("sw_compromise", "bot"), T, T, T, ("sw_scan", "bot"), ("sw_fix", "bot"), T, T, T,
